@@ -28,6 +28,37 @@ fn main() {
                 println!("{}", p.id);
             }
         }
+        "eval" => {
+            // vcheck eval '<program>' ['<json event>']  -- developer aid
+            let src = args.get(1).cloned().unwrap_or_else(|| usage());
+            let ev: vrl::value::Value = args
+                .get(2)
+                .map(|j| serde_json::from_str::<serde_json::Value>(j).expect("event must be JSON").into())
+                .unwrap_or_else(vrlx::empty_object);
+            match vrlx::compile(&src) {
+                Err(d) => println!("REJECTED: {}", vrlx::diag_summary(&d)),
+                Ok(res) => {
+                    for w in res.warnings.iter() {
+                        println!("warning E{}: {}", w.code, w.message);
+                    }
+                    let ti = res.program.final_type_info();
+                    println!("type: {} fallible={} returns={}", ti.result.kind(), ti.result.is_fallible(), ti.result.returns());
+                    let out = vrlx::run(&res.program, ev, vrlx::empty_object());
+                    println!("end: {:?}", out.end);
+                    println!("event: {}  metadata: {}", out.event, out.metadata);
+                    println!("hook events: {:?}", vrl::compiler::verif::take());
+                }
+            }
+        }
+        "show" => {
+            // vcheck show <replay.json>: print the VRL source of a program case
+            let text = std::fs::read_to_string(args.get(1).cloned().unwrap_or_else(|| usage())).expect("read");
+            let rf: engine::ReplayFile = serde_json::from_str(&text).expect("parse");
+            match serde_json::from_value::<gens::proggen::ProgCase>(rf.case.clone()) {
+                Ok(c) => println!("{}\n# event: {}\n# metadata: {}", gens::prog::program_src(&c.prog), c.event.to_value(), c.meta.to_value()),
+                Err(_) => println!("{}", serde_json::to_string_pretty(&rf.case).unwrap()),
+            }
+        }
         "describe" => {
             let v: Vec<serde_json::Value> =
                 props::all().iter().map(|p| serde_json::json!({"id": p.id, "rule": p.rule, "note": p.note})).collect();
